@@ -90,6 +90,8 @@ pub mod serde_json {
   pub struct Map<K, V> { _k: core::marker::PhantomData<K>, _v: core::marker::PhantomData<V> }
   impl<V> Map<String, V> { pub fn get(&self, _k: &str) -> Option<&V> { unimplemented!() } }
   pub use super::JsonValue as Value;
+  #[derive(Debug)] pub struct Error { _p: u64 }
+  pub fn to_string<T>(_v: &T) -> Result<String, Error> { unimplemented!() }
 }
 verus! {
 #[verifier::external_type_specification] #[verifier::external_body] pub struct ExJsonNumber(serde_json::Number);
